@@ -1,6 +1,7 @@
 from .. import cases
-from .common import run_tables
+from .common import run_carrier_sweep, run_tables
 
 
 def run(ck):
     run_tables(ck, 'C09.spike', cases.spike)
+    run_carrier_sweep(ck, 'C09.spike', cases.spike, time=False, n_max=4)
